@@ -1,7 +1,8 @@
 Require Extraction.
 From Coq Require Import ExtrOcamlBasic.
-From Cloak Require Import Model.Codec Model.Crypto.Salsa20 Model.Crypto.ChaChaPoly Model.Crypto.GCM.
+From Cloak Require Import Model.Codec Model.SessionLimit Model.Crypto.Salsa20 Model.Crypto.ChaChaPoly Model.Crypto.GCM.
 Extraction Blacklist List String Int.
 Extraction "../ocaml/gen/c04.ml" encode decode recover obfuscate encode_in_buf payload_cipher
   max_stream_unit_write pad_len rand_bound
+  make_session limit_in_force stream_write_plan read_from_plan closing_notice_plan read_from_offer next_seq
   salsa20_xor chachapoly_seal chachapoly_open gcm_seal gcm_open.
